@@ -24,14 +24,20 @@ def run(tier, seed):
     alphas = [0.01, 0.02, 0.05, 0.005, 0.1]
     specs = ["%s:a:%s" % (k, f2h(a)) for k in ("log", "lin", "cub") for a in alphas]
     facts = sketchcheck.learn_specs(pid, specs)
+    sibs = {}
+    for sp, f in list(facts.items()):
+        sibs[sp] = ["%s:g:%s:%s" % (f["kind"], f2h(f["gamma"]), f2h(f["off"] + d)) for d in (40.0, -3.5, 1.0)]
+    facts.update(sketchcheck.learn_specs(pid, [x for v in sibs.values() for x in v]))
+    sibs = {k: [x for x in v if x in facts] for k, v in sibs.items()}; sibs = {k: v for k, v in sibs.items() if v}
     n = 150 if tier == "quick" else 4000
     cases, metas = [], []
     for i in range(n):
         s1, s2 = rng.choice(sorted(facts)), rng.choice(sorted(facts))
         if rng.random() < 0.15: s2 = s1
+        if rng.random() < 0.15 and s1 in sibs: s2 = rng.choice(sibs[s1])          # same kind and base, another index offset: a different mapping (bins renumbered)
         f1, f2 = facts[s1], facts[s2]
         c = rng.random()
-        if s1 == s2 and c < 0.4: scale = 1.0
+        if (s1 == s2 or (s1 in sibs and s2 in sibs[s1])) and c < 0.4: scale = 1.0
         elif c < 0.5: scale = f1["gamma"] ** rng.randint(-3, 3) if f1["kind"] == "log" else 2.0 ** rng.randint(-3, 3)      # bin-aligned
         elif c < 0.6: scale = 1.0 / f1["gamma"]
         else: scale = 10 ** rng.uniform(-3, 3)
@@ -110,7 +116,7 @@ def run(tier, seed):
             # carries the requested mapping
             env = sketchcheck.Env()
             for l, sd in zip(core.instr_lines(b.lines), sides): env.note(l, sd)
-            if not m["identity"] and "r" in env.maps and (env.maps["r"]["kind"] != f2["kind"] or h2f(env.maps["r"]["gamma"][1:]) != f2["gamma"]): fails.append("the result does not carry the requested mapping")
+            if not m["identity"] and "r" in env.maps and (env.maps["r"]["kind"] != f2["kind"] or h2f(env.maps["r"]["gamma"][1:]) != f2["gamma"] or h2f(env.maps["r"]["off"][1:]) != f2["off"]): fails.append("the result does not carry the requested mapping")
             if hr["zero"] != hs["zero"]: fails.append("zero weight changed: %s -> %s" % (hs["zero"], hr["zero"]))
             Ws, Wr = parse_F(hs["count"]) if not m["exact"] else None, None
             for side, src, tgt in (("positive", ps, pr), ("negative", ns, nr)):
